@@ -186,6 +186,12 @@ func genStage(r *rand.Rand, kind string) LStage {
 		s := LStage{Kind: "lf", Op: pick(r, lgStrOp)}
 		if s.Op == "re" || s.Op == "nre" {
 			s.Re = genValueRe(r, asciiOnly(append(lgNeedles, "error", "lvl=warn")))
+			switch r.Intn(10) {
+			case 0: // a pure literal under the case-folding flag, in the case the lines do not use
+				s.Re = &Re{Kind: "fold", Neg: r.Intn(2) == 0, A: reLit(pick(r, []string{"ERROR", "Error", "LVL", "Warn", "X", "INFO"}))}
+			case 1: // any expression under the flag
+				s.Re = &Re{Kind: "fold", A: s.Re}
+			}
 		} else {
 			s.Value = pick(r, lgNeedles)
 		}
